@@ -208,6 +208,64 @@ def blocks_on_chunk(kind, k, strand):
     return fn
 
 
+def utr_on_chunk(shape, strand):
+    """UTRs of a coding transcript built on a chunk: exactly the whole-chromosome UTR bases that lie inside the window (chunk coordinates), whatever the
+    window cuts off the transcript or the CDS; shape = which exons hold the CDS start / end. Realised leg: the solver enumerates the layouts, the body
+    compares every position natively."""
+
+    def fn(**kw):
+        names = sorted(kw)
+        vals = concretize(*[kw[n] for n in names])
+        kw = dict(zip(names, vals if isinstance(vals, list) else [vals]))
+        with untraced():
+            return bool(body(**kw))
+
+    def body(s0, l0, g1, l1, ca, cb, w):
+        ex = [(s0, s0 + l0), (s0 + l0 + g1, s0 + l0 + g1 + l1)]
+        # CDS from ca bases into its first exon to cb bases before the end of its last exon
+        first, last = {"e0": (0, 0), "e1": (1, 1), "both": (0, 1)}[shape]
+        cs, ce = ex[first][0] + ca, ex[last][1] - cb
+        cds = [(cs, ce)] if first == last else [(cs, ex[0][1]), (ex[1][0], ce)]
+        args = ([e[0] for e in ex], [e[1] for e in ex], strand, [c[0] for c in cds], [c[1] for c in cds], [CDSFrame.ZERO] * len(cds))
+        chunk = TranscriptInterval(*args, guid=46, parent_or_seq_chunk_parent=chunk_parent(w, L))
+        exon_pos = [q for a, b in ex for q in range(a, b) if w <= q < w + L]
+        want5 = [q for q in exon_pos if (q < cs if strand is PLUS else q >= ce)]
+        want3 = [q for q in exon_pos if (q >= ce if strand is PLUS else q < cs)]
+        for got, want in ((chunk.get_5p_interval(), want5), (chunk.get_3p_interval(), want3)):
+            if got is EmptyLocation() or got.is_empty:
+                if want:
+                    return False
+                continue
+            if sorted(q + w for a, b in blocks_of(got) for q in range(a, b)) != want or got.strand is not strand:
+                return False
+            # a chunk-relative answer: it lives on the chunk and lifts back to the chromosome
+            up = got.lift_over_to_first_ancestor_of_type(SequenceType.CHROMOSOME)
+            if sorted(q for a, b in blocks_of(up) for q in range(a, b)) != want:
+                return False
+            exp = "".join(GENOME40[q - w] for q in want)
+            if strand is MINUS:
+                exp = "".join({"A": "T", "C": "G", "G": "C", "T": "A"}[c] for c in reversed(exp))
+            if str(got.extract_sequence()) != exp:
+                return False
+        return True
+
+    return fn
+
+
+def utr_pre(shape):
+    def pre(s0, l0, g1, l1, ca, cb, w):
+        if not (100 <= s0 and s0 <= 101 and 4 <= l0 and l0 <= 6 and 2 <= g1 and g1 <= 3 and 4 <= l1 and l1 <= 6 and 0 <= ca and ca <= 2 and 0 <= cb and cb <= 2
+                and 94 <= w and w <= 116):
+            return False
+        if shape == "e0":
+            return ca + cb < l0
+        if shape == "e1":
+            return ca + cb < l1
+        return True
+
+    return pre
+
+
 def cds_sliced_out(strand):
     """transcript 2 exons, CDS inside exon `which`; the window may miss the CDS, the transcript, or neither"""
 
@@ -582,6 +640,15 @@ def obligations(tier):
                                 "touch (0-bp gap, a modelled frameshift) stay separate blocks whatever the window cuts" % kind,
                            bounds="%d blocks with gaps >= 0 (adjacent allowed), symbolic coordinates and window start, chunk length %d" % (k, L),
                            examples=[ex, dict(ex, w=105), dict(ex, g1=2)]))
+        for shape in ("e0", "e1", "both"):
+            out.append(Obl("utr_on_chunk_%s_%s" % (shape, sn), utr_on_chunk(shape, strand), dict(s0=int, l0=int, g1=int, l1=int, ca=int, cb=int, w=int),
+                           utr_pre(shape), budget=900, cost=90,
+                           desc="coding transcript on a chunk: get_5p_interval / get_3p_interval are exactly the whole-chromosome UTR bases inside the window, in "
+                                "chunk coordinates and with their sequence, whatever the window cuts off the transcript or its CDS (empty, not an error, when none is inside)",
+                           bounds="2 exons (4..6 nt, intron 2..3), CDS start/end 0..2 nt into / before the end of exon(s) %s, first start 100..101, window start 94..116, "
+                                  "chunk length %d (realised)" % (shape, L),
+                           examples=[dict(s0=100, l0=6, g1=3, l1=6, ca=2, cb=1, w=98), dict(s0=100, l0=6, g1=3, l1=6, ca=2, cb=1, w=104),
+                                     dict(s0=100, l0=6, g1=3, l1=6, ca=0, cb=0, w=110)]))
         out.append(Obl("cds_sliced_out_%s" % sn, cds_sliced_out(strand), dict(s0=int, l0=int, g1=int, l1=int, co=int, cl=int, w=int, p=int),
                        lambda s0, l0, g1, l1, co, cl, w, p: s0 >= 0 and l0 >= 1 and g1 >= 1 and l1 >= 1 and co >= 0 and cl >= 1 and co + cl <= l1 and w >= 0,
                        budget=600, cost=120,
